@@ -22,6 +22,7 @@
 #include <ygm/container/map.hpp>
 #include <ygm/container/set.hpp>
 #include <ygm/container/detail/reducing_adapter.hpp>
+#include <ygm/container/reduce_by_key.hpp>
 #include <cstdio>
 #include <fstream>
 #include <functional>
@@ -259,6 +260,26 @@ int main(int argc, char **argv) {
         std::sort(gv.begin(), gv.end());
         line(q + "B.gather0 :" + join(gv));
       }
+    }
+    // ---- reduce_by_key_map (C16): over a rank-local vector of pairs (colliding cache slots) and over a distributed map ----
+    {
+      const long keys[5] = {0, 1, 1048576, 99, 2097153};
+      std::vector<std::pair<long, long>> local;
+      for (long i = 0; i < 5 + me; ++i) local.push_back({keys[(i * 7 + me) % 5], i + 10 * me + 1});
+      auto plusl = [](const long &a, const long &b) { return a + b; };
+      auto r1 = reduce_by_key_map<long, long>(local, plusl, world);
+      // a distributed collection: a bag of pairs holding the same pairs, inserted round robin (so they sit on other ranks)
+      bag<std::pair<long, long>> PB(world);
+      for (auto &kv : local) PB.async_insert(kv);
+      auto r2 = reduce_by_key_map<long, long>(PB, plusl, world);
+      world.barrier();
+      std::string s = "Y " + std::to_string(me) + " RBK1 :";
+      for (auto &kv : r1.m_impl.m_local_map) s += " " + std::to_string(kv.first) + "=" + std::to_string(kv.second);
+      line(s);
+      s = "Y " + std::to_string(me) + " RBK2 :";
+      for (auto &kv : r2.m_impl.m_local_map) s += " " + std::to_string(kv.first) + "=" + std::to_string(kv.second);
+      line(s);
+      world.cf_barrier();
     }
     // ---- serialization round trip (C20): pending operations are part of the image ------------------
     {
